@@ -73,6 +73,8 @@ func (storageSlice) Gen(r *rand.Rand, _ int, tier string) ([]string, []string) {
 	// compared, the direct oracle stops at the first undisciplined op): writes/seeks to
 	// earlier parts, Remove before Finalize, writes after Finalize.
 	undisc := r.Intn(12) == 0
+	nh := 0            // reader handles opened so far
+	var pending []int // handles still to be read
 	target := func() int {
 		if undisc && nparts > 1 && r.Intn(3) == 0 {
 			return r.Intn(nparts)
@@ -148,6 +150,13 @@ func (storageSlice) Gen(r *rand.Rand, _ int, tier string) ([]string, []string) {
 			if nparts > 0 && !partHasData {
 				sawEmptyPart = true
 			}
+			// a reader of the part that is now complete, opened here and used much later
+			// (after further parts, Finalize, Remove): "readers opened before/after Finalize and used after Remove"
+			if nparts > 0 && !undisc && r.Intn(4) == 0 {
+				nh++
+				ops = append(ops, fmt.Sprintf("open %d p %d", nh, nparts-1))
+				pending = append(pending, nh)
+			}
 			ops = append(ops, "newpart")
 			nparts++
 			curLen, curPos, partHasData = 0, 0, false
@@ -204,7 +213,35 @@ func (storageSlice) Gen(r *rand.Rand, _ int, tier string) ([]string, []string) {
 			ops = append(ops, "size")
 		}
 	}
+	if nparts > 0 && !undisc && r.Intn(3) == 0 {
+		nh++
+		ops = append(ops, fmt.Sprintf("open %d p %d", nh, nparts-1)) // the last part, right before Finalize
+		pending = append(pending, nh)
+	}
 	ops = append(ops, "fin")
+	if !undisc && r.Intn(2) == 0 {
+		nh++
+		ops = append(ops, fmt.Sprintf("open %d f", nh))
+		pending = append(pending, nh)
+		if nparts > 0 && r.Intn(2) == 0 {
+			nh++
+			ops = append(ops, fmt.Sprintf("open %d p %d", nh, r.Intn(nparts)))
+			pending = append(pending, nh)
+		}
+	}
+	if len(pending) > 0 {
+		tags = append(tags, "held-readers")
+		// some are used before Remove, the rest after it (see the end of the case)
+		keep := pending[:0:0]
+		for _, h := range pending {
+			if r.Intn(3) == 0 {
+				ops = append(ops, fmt.Sprintf("rdh %d %s", h, bufs()))
+			} else {
+				keep = append(keep, h)
+			}
+		}
+		pending = keep
+	}
 	for i := 0; i < nparts; i++ {
 		ops = append(ops, fmt.Sprintf("rdpart %d", i))
 	}
@@ -234,12 +271,15 @@ func (storageSlice) Gen(r *rand.Rand, _ int, tier string) ([]string, []string) {
 	if sawRmEarly {
 		tags = append(tags, "rm-before-fin")
 	}
-	if r.Intn(3) == 0 {
+	if r.Intn(3) == 0 || len(pending) > 0 {
 		ops = append(ops, "exists", "rm", "exists", "rdfile -", "size")
 		if nparts > 0 {
 			ops = append(ops, "rdpart 0")
 		}
 		tags = append(tags, "remove")
+	}
+	for _, h := range pending {
+		ops = append(ops, fmt.Sprintf("rdh %d %s", h, bufs())) // a reader opened earlier, used after Remove
 	}
 	if sawSeekPast {
 		tags = append(tags, "seek-past-end")
@@ -258,6 +298,7 @@ func (storageSlice) Gen(r *rand.Rand, _ int, tier string) ([]string, []string) {
 }
 
 type backend struct {
+	handles map[int]io.ReadCloser
 	file    storage.File
 	parts   []storage.Part
 	writers []io.WriteSeeker
@@ -271,6 +312,7 @@ type storageRunner struct {
 	refPos  []int
 	fin     bool
 	removed bool
+	snaps    map[int]string // reader handle -> reference content at open time
 	rmCalled bool
 	tainted bool // an op outside the property's quantifier was seen: the reference no longer applies
 	fails   []string
@@ -290,7 +332,14 @@ func (storageSlice) NewRunner() Runner {
 	return r
 }
 
-func (r *storageRunner) Close() { os.RemoveAll(r.dir) }
+func (r *storageRunner) Close() {
+	for _, b := range []*backend{&r.ram, &r.disk} {
+		for _, h := range b.handles {
+			h.Close()
+		}
+	}
+	os.RemoveAll(r.dir)
+}
 
 func (r *storageRunner) Oracle() []string { return r.fails }
 
@@ -404,6 +453,47 @@ func (b *backend) step(ws []string) string {
 		return "b" + hexOrDash(data)
 	case "size":
 		return fmt.Sprintf("n%d", b.file.Size())
+	case "open":
+		// open <id> f | open <id> p <k>: keep the reader for a later `rdh`
+		id, _ := strconv.Atoi(ws[1])
+		var rc io.ReadCloser
+		var err error
+		if ws[2] == "f" {
+			rc, err = b.file.Reader()
+		} else {
+			k, _ := strconv.Atoi(ws[3])
+			if k >= len(b.parts) {
+				return "e"
+			}
+			rc, err = b.parts[k].Reader()
+		}
+		if err != nil {
+			return "e"
+		}
+		if b.handles == nil {
+			b.handles = map[int]io.ReadCloser{}
+		}
+		b.handles[id] = rc
+		return "h"
+	case "rdh":
+		id, _ := strconv.Atoi(ws[1])
+		rc, ok := b.handles[id]
+		if !ok {
+			return "e"
+		}
+		delete(b.handles, id)
+		var bufs []int
+		if ws[2] != "-" {
+			for _, s := range strings.Split(ws[2], ",") {
+				v, _ := strconv.Atoi(s)
+				bufs = append(bufs, v)
+			}
+		}
+		data, err := readAll(rc, bufs)
+		if err != nil {
+			return "e"
+		}
+		return "b" + hexOrDash(data)
 	}
 	return "bad-op"
 }
@@ -499,6 +589,63 @@ func (r *storageRunner) Step(line string) []string {
 	}
 	if ws[0] == "rm" {
 		r.rmCalled = true
+	}
+	if ws[0] == "open" || ws[0] == "rdh" {
+		a := r.ram.step(ws)
+		d := r.disk.step(ws)
+		id, _ := strconv.Atoi(ws[1])
+		if !r.tainted {
+			if ws[0] == "open" {
+				// the reference content at the moment the reader is opened
+				var snap []byte
+				okOpen := true
+				if ws[2] == "f" {
+					okOpen = r.fin
+					for _, p := range r.ref {
+						snap = append(snap, p...)
+					}
+				} else {
+					k, _ := strconv.Atoi(ws[3])
+					if k < len(r.ref) {
+						snap = append(snap, r.ref[k]...)
+					} else {
+						okOpen = false
+					}
+				}
+				if r.snaps == nil {
+					r.snaps = map[int]string{}
+				}
+				if okOpen {
+					r.snaps[id] = "b" + hexOrDash(snap)
+				} else {
+					r.snaps[id] = "e"
+				}
+				want := "h"
+				if !okOpen {
+					want = "e"
+				}
+				if a != want {
+					r.fails = append(r.fails, fmt.Sprintf("ram %q: got %s want %s", line, a, want))
+				}
+				if !r.removed && d != want {
+					r.fails = append(r.fails, fmt.Sprintf("disk %q: got %s want %s", line, d, want))
+				}
+				if r.removed {
+					delete(r.snaps, id) // opened after Remove: outside "until Remove is called"
+					r.snaps[-id-1] = "ram-only:" + want
+				}
+			} else if want, ok := r.snaps[id]; ok {
+				// a reader returns what the part / file held when it was opened, whatever happened since
+				// (later parts, Finalize, Remove)
+				if a != want {
+					r.fails = append(r.fails, fmt.Sprintf("ram reader opened earlier, %q: got %s want %s", line, trunc(a), trunc(want)))
+				}
+				if d != want {
+					r.fails = append(r.fails, fmt.Sprintf("disk reader opened earlier, %q: got %s want %s", line, trunc(d), trunc(want)))
+				}
+			}
+		}
+		return []string{fmt.Sprintf("ram:%s disk:%s", a, d)}
 	}
 	a := r.ram.step(ws)
 	d := r.disk.step(ws)
